@@ -86,3 +86,10 @@ __CPROVER_requires(__CPROVER_is_fresh(self, sizeof(*self)))
 __CPROVER_assigns()                                                                                  /*@ob C17,C03.queries-change-nothing */
 __CPROVER_ensures((__CPROVER_return_value != 0) == (VIS_SETS ? (g_visit_hit != 0) : (g_visit_hit == 0)))                 /*@ob C17,C03.result-is-a-function-of-the-active-configuration */
 ;
+
+/* ---- get_active_state_ids (C03): exposes exactly the per-region active ids, assigns nothing ---- */
+const uint16_t* get_active_state_ids(const fsm_t* self)
+__CPROVER_requires(__CPROVER_is_fresh(self, sizeof(*self)))
+__CPROVER_assigns()                                                                                        /*@ob C03.introspection-assigns-nothing */
+__CPROVER_ensures(__CPROVER_return_value == self->m_active_state_ids)                                      /*@ob C03.get_active_state_ids-is-the-active-configuration */
+;
